@@ -529,7 +529,7 @@ macro_rules! hash_fwd {
 
 /// One forwarding case in one world. `$mk` boxes a sized value, `$mks`/`$mkb` box a str / byte slice.
 macro_rules! forwarding {
-    ($out:expr, $g:expr, $a:expr, $b:expr, bx = $bx:ident, mk = $mk:expr, mk_str = $mks:expr, mk_bytes = $mkb:expr, dynhash = $dh:expr, dynfut = $df:expr) => {{
+    ($out:expr, $g:expr, $a:expr, $b:expr, bx = $bx:ident, mk = $mk:expr, pin = $pin:expr, mk_str = $mks:expr, mk_bytes = $mkb:expr, dynhash = $dh:expr, dynfut = $df:expr) => {{
         let out: &mut Vec<String> = $out;
         let (ai, bi) = ($a as usize, $b as usize);
         match $g {
@@ -620,6 +620,13 @@ macro_rules! forwarding {
                 { let m: &mut u64 = x.borrow_mut(); *m = m.wrapping_mul(3); }
                 *x ^= 0x55;
                 let p = format!("{:p}", x);
+                {
+                    // pin_in: the pinned box derefs to the value and gives it back
+                    let mut pinned = $pin(FW_U64[ai + 1] ^ 0x77);
+                    let v0: u64 = *pinned;
+                    *pinned.as_mut().get_mut() = v0.wrapping_add(3);
+                    out.push(format!("pinned{} then{}", v0, *pinned));
+                }
                 out.push(format!("borrow{} {} as_ref{} {} after{} pointer_is_value_address{} pfmt{}", b1v, b1a, r1v, r1a, *x, p == format!("{:p}", addr as *const u64), format!("{:18p}", x).len()));
             }
             8 => {
@@ -656,7 +663,7 @@ fn run_forwarding(envp: *mut ExecEnv, g: u8, a: u8, b: u16, v: &mut Vec<Violatio
     let r0 = {
         let o = &mut o0;
         arena_op(envp, 1, 0, &[], || {
-            forwarding!(o, g, a, b, bx = BBoxT, mk = |x| BBox::new_in(x, bref),
+            forwarding!(o, g, a, b, bx = BBoxT, mk = |x| BBox::new_in(x, bref), pin = |x| BBox::pin_in(x, bref),
                 mk_str = |s: &str| -> BBox<'static, str> { let r: &'static mut str = bumpalo::collections::String::from_str_in(s, bref).into_bump_str_mut_compat(); unsafe { BBox::from_raw(r as *mut str) } },
                 mk_bytes = |s: &[u8]| -> BBox<'static, [u8]> { BBox::from_iter_in(s.iter().copied(), bref) },
                 dynhash = |h: RecHasher| -> BBox<'static, dyn Hasher> { let x = BBox::new_in(h, bref); unsafe { BBox::from_raw(BBox::into_raw(x) as *mut dyn Hasher) } },
@@ -667,7 +674,7 @@ fn run_forwarding(envp: *mut ExecEnv, g: u8, a: u8, b: u16, v: &mut Vec<Violatio
         let o = &mut o1;
         let _g = Callback::enter();
         crate::util::quiet(|| catch_unwind(AssertUnwindSafe(|| {
-            forwarding!(o, g, a, b, bx = StdBoxT, mk = |x| Box::new(x),
+            forwarding!(o, g, a, b, bx = StdBoxT, mk = |x| Box::new(x), pin = |x| Box::pin(x),
                 mk_str = |s: &str| -> Box<str> { String::from(s).into_boxed_str() },
                 mk_bytes = |s: &[u8]| -> Box<[u8]> { s.to_vec().into_boxed_slice() },
                 dynhash = |h: RecHasher| -> Box<dyn Hasher> { Box::new(h) },
